@@ -40,12 +40,26 @@ type shrinker struct {
 	deadline time.Time
 	tried    int
 	inproc   bool
+	attempts int // code that is itself nondeterministic (the C17 subject matter) may need several replays
 	last     *Violation
 	lastLog  string
 }
 
 // test reports whether the candidate still shows the same violation.
 func (sh *shrinker) test(s *Script) bool {
+	n := sh.attempts
+	if n < 1 {
+		n = 1
+	}
+	for i := 0; i < n; i++ {
+		if sh.test1(s) {
+			return true
+		}
+	}
+	return false
+}
+
+func (sh *shrinker) test1(s *Script) bool {
 	sh.tried++
 	if sh.inproc {
 		res := execScript(s, nil)
@@ -298,6 +312,9 @@ func (c *coord) triage(it foundItem, want Violation, capS float64) *Replay {
 		}
 	}
 	sh := &shrinker{c: c, want: want, deadline: time.Now().Add(time.Duration(capS * float64(time.Second)))}
+	if c.prop == "C17" {
+		sh.attempts = 6
+	}
 	// literal replay in a fresh process must reproduce the violation
 	if !sh.test(s) {
 		// The violation may depend on state the process accumulated in the
@@ -333,7 +350,13 @@ func (c *coord) triage(it foundItem, want Violation, capS float64) *Replay {
 		return rep
 	}
 	sh.inproc = c.prop == "C12"
+	confirmAttempts := sh.attempts
+	sh.attempts = 1
+	if confirmAttempts > 1 {
+		sh.attempts = 2
+	}
 	min := sh.minimise(s)
+	sh.attempts = confirmAttempts
 	// the minimised script must itself reproduce in a fresh process
 	sh.inproc = false
 	sh.deadline = time.Now().Add(30 * time.Second)
